@@ -337,7 +337,7 @@ fn enum_cases(tier: Tier, part: u32, parts: u32) -> Box<dyn Iterator<Item = WCas
 		if k as u32 % parts != part {
 			continue;
 		}
-		let full = tier == Tier::Thorough || cap <= 33;
+		let full = tier == Tier::Thorough || cap <= 65;
 		for boxed in [false, true] {
 			if cap == 0 {
 				for ctor in [Ctor::New, Ctor::Empty, Ctor::Default, Ctor::FromVec, Ctor::FromBox] {
@@ -567,7 +567,7 @@ pub fn def(tier: Tier) -> PropertyDef {
 			case_dispatch,
 		));
 	}
-	checks.push(pt("histories", tier.pick(3000, 60000), history_strategy(), |c: &HCase, st| {
+	checks.push(pt("histories", tier.pick(20000, 100000), history_strategy(), |c: &HCase, st| {
 		if c.boxed {
 			run_history::<Box<u32>>(c, st)
 		} else {
